@@ -62,6 +62,11 @@ func (l *DeadlineLimiter) tryAcquire(ctx context.Context) (listener core.Listene
 
 		// We have reached the limit so block until a token is released
 		timeout := l.deadline.Sub(time.Now().UTC())
+		if timeout <= 0 {
+			// the deadline has passed since the check above; waitReady would take a
+			// non-positive timeout as "no timeout" and wait without any bound
+			return nil, false
+		}
 
 		// We have reached the limit so block until:
 		// - A token is released
